@@ -125,7 +125,7 @@ func (k Keeper) GetAllStakerListAssets(ctx sdk.Context) (ret []types.StakerListA
 		v := &types.StakerList{}
 		k.cdc.MustUnmarshal(iterator.Value(), v)
 		ret = append(ret, types.StakerListAssets{
-			AssetId:    string(iterator.Key()),
+			AssetId:    string(iterator.Key()[len(types.NativeTokenStakerListKeyPrefix):]),
 			StakerList: v,
 		})
 	}
